@@ -376,6 +376,10 @@ func blockContainerLayout(context *layoutContext, box_ Box, bottomSpace pr.Float
 	if !isStart {
 		skip, skipStack = skipStack.Unpack()
 		firstLetterStyle = nil
+		if skip > len(box.Children) {
+			// the empty copy of a table cell that does not fit is laid out with the skip stack of the cell
+			skip = len(box.Children)
+		}
 	}
 	L := len(box.Children[skip:])
 	var i int
